@@ -162,6 +162,18 @@ pub fn palettes(seed: u64, n_random: usize) -> Vec<(String, [Rgb3; 16])> {
     }
     // every entry the same corner of the colour cube (the opposite corner is then at the largest possible distance from
     // all of them), and the built-in palettes with only the first / only the last slot changed
+    // every entry far away from the opposite end of the cube (a "paper" theme seen from near-black, a dark theme seen
+    // from near-white): the nearest entry is then still hundreds of millions of distance units away
+    let mut pastel = [(0u8, 0u8, 0u8); 16];
+    let mut dark = [(0u8, 0u8, 0u8); 16];
+    for i in 0..16 {
+        pastel[i] = (255 - (rng.below(40) as u8), 255 - (rng.below(40) as u8), 255 - (rng.below(40) as u8));
+        dark[i] = (rng.below(40) as u8, rng.below(40) as u8, rng.below(40) as u8);
+    }
+    pastel[0] = (255, 255, 255);
+    dark[0] = (0, 0, 0);
+    v.push(("pastel".into(), pastel));
+    v.push(("dark".into(), dark));
     v.push(("all-white".into(), [(255, 255, 255); 16]));
     v.push(("all-black".into(), [(0, 0, 0); 16]));
     for (name, base) in [("VGA", REF_VGA), ("WIN10", REF_WIN10)] {
